@@ -4,6 +4,7 @@ mod a64;
 mod emitters;
 mod machine;
 mod moves;
+mod prints;
 mod report;
 mod rv;
 mod x86;
@@ -121,6 +122,72 @@ fn check_emitters(seed: u64, only: Option<&str>, backend: Option<&str>) -> Vec<S
     out
 }
 
+fn check_prints(tier: &str, seed: u64) -> Vec<Summary> {
+    let mut out = vec![];
+    let max_live = if tier == "thorough" { 24 } else { 20 };
+    macro_rules! one {
+        ($B:ty, $M:ty, $inspected:expr, $name:expr) => {{
+            let cases = prints::print_cases(max_live, $inspected);
+            let samples: Vec<String> = cases.iter().step_by((cases.len() / 3).max(1)).take(3).map(|c| format!("{c:?}")).collect();
+            let n = cases.len() as u64;
+            let (total, fails) = par_run(cases, move |c| {
+                let _g = GEN_LOCK.lock().unwrap_or_else(|e| e.into_inner());
+                prints::run_print::<$B, $M, _>(c, seed)
+            });
+            let mut s = Summary::default();
+            s.check = format!("prints/{}", $name);
+            s.bound = format!("print_i64 / println_i64 with 1..{max_live} live variables x every Ext/non-Ext assignment of the first {} bindings (the ones the save code inspects) x both extremes for the rest x argument positions (all for <= 8 variables; first, boundary, middle, last otherwise)", $inspected);
+            s.cases = total;
+            s.nontrivial = n;
+            s.exhaustive = true;
+            s.samples = samples;
+            s.violations = fails.iter().map(|f| f.json(&format!("native::{}::print_i64::call-sequence", $name), $name)).collect();
+            out.push(s);
+        }};
+    }
+    one!(X86B, x86::X86, 4, "x86_64");
+    one!(A64B, a64::A64, 7, "aarch64");
+    // whole routine: prologue, argument shuffle, exit, epilogue
+    let mut s = Summary::default();
+    s.check = "routine/x86_64".into();
+    s.bound = "def main(x1..xn) { exit xk } for n = 0..5, every k, compiled by coder::compile + into_x86_64_routine, interpreted from asm_main to ret".into();
+    s.exhaustive = true;
+    for n in 0..=5usize {
+        for k in 0..n.max(1) {
+            s.cases += 1;
+            s.nontrivial += 1;
+            let r = std::panic::catch_unwind(|| prints::run_routine::<X86B, x86::X86, _>(n, k, seed, &[7, 6, 5, 1, 8, 9], &[2, 3, 12, 13, 14, 15], 4, axcut2x86_64::into_routine::into_x86_64_routine, 0x7fff_0000_1008));
+            match r {
+                Ok(Ok(())) => {}
+                Ok(Err(f)) => s.violations.push(f.json("native::x86_64::routine::calling-convention", "x86_64")),
+                Err(_) => s.violations.push(Failure { what: "code generator panicked".into(), input: format!("n={n} k={k}"), instructions: vec![], detail: String::new() }.json("native::x86_64::routine::calling-convention", "x86_64")),
+            }
+        }
+    }
+    s.samples = vec!["main(x1,x2,x3) { exit x2 }".into()];
+    out.push(s);
+    let mut s = Summary::default();
+    s.check = "routine/aarch64".into();
+    s.bound = "def main(x1..xn) { exit xk } for n = 0..7, every k, compiled by coder::compile + into_aarch64_routine, interpreted from asm_main to RET".into();
+    s.exhaustive = true;
+    for n in 0..=7usize {
+        for k in 0..n.max(1) {
+            s.cases += 1;
+            s.nontrivial += 1;
+            let cs: Vec<usize> = (18..30).collect();
+            let r = std::panic::catch_unwind(|| prints::run_routine::<A64B, a64::A64, _>(n, k, seed, &[0, 1, 2, 3, 4, 5, 6, 7], &cs, 0, axcut2aarch64::into_routine::into_aarch64_routine, 0x7fff_0000_1000));
+            match r {
+                Ok(Ok(())) => {}
+                Ok(Err(f)) => s.violations.push(f.json("native::aarch64::routine::calling-convention", "aarch64")),
+                Err(_) => s.violations.push(Failure { what: "code generator panicked".into(), input: format!("n={n} k={k}"), instructions: vec![], detail: String::new() }.json("native::aarch64::routine::calling-convention", "aarch64")),
+            }
+        }
+    }
+    s.samples = vec!["main(x1..x7) { exit x5 }".into()];
+    out.push(s);
+    out
+}
+
 fn main() {
     let args: Vec<String> = std::env::args().collect();
     let check = args.get(1).cloned().unwrap_or_default();
@@ -155,6 +222,7 @@ fn main() {
     std::panic::set_hook(Box::new(|_| {}));
     let res = match check.as_str() {
         "moves" => check_moves(&tier, seed),
+        "prints" => check_prints(&tier, seed),
         "emitters" => check_emitters(seed, only.as_deref(), backend.as_deref()),
         _ => {
             eprintln!("unknown check {check}");
